@@ -159,6 +159,7 @@ def run(rep: vk.Report):
     lenient = Cases("degree-numpy-typed", "Degree", "expr * list (option nat) * bool * bool", LENIENT_CHECKER)
     lenient_exprs = []
     pre_count = [0]
+    vars_first = [0]
     exprs = []
     unsupported = 0
     hits = {}
@@ -188,6 +189,15 @@ def run(rep: vk.Report):
         if rng.random() < 0.4:
             preclassify(e)
             pre_count[0] += 1
+        if rng.random() < 0.5:
+            # a user who looks at the model's VARIABLES before asking for its class (read-only calls must not change the answer)
+            try:
+                e.get_variables()
+                from optyx import Problem as _P
+                _ = _P().minimize(e).variables
+                vars_first[0] += 1
+            except Exception:
+                pass
         obs, lin, quad = observe(e)
         if malformed(obs):
             rep.violation({"kind": "correspondence", "obligation": "a reported degree is None or a natural number",
@@ -315,6 +325,7 @@ def run(rep: vk.Report):
     cov["evaluations"] = len(cases.terms) + len(deep.terms) + len(lenient.terms)
     cov["numpy_typed_constant_cases"] = len(lenient.terms)
     cov["classified_bottom_up_first"] = pre_count[0]
+    cov["variables_read_before_classification"] = vars_first[0]
     cov["churn_models_built_and_dropped"] = churn
     cov["churn_disagreements"] = churn_bad
     cov["distinct_nontrivial"] = cases.nontrivial + deep.nontrivial
